@@ -2,8 +2,11 @@ From Coq Require Import Extraction ExtrOcamlBasic.
 From Common Require Import Bytes Drv Outcome.
 From C31 Require ModelSpec.
 From C32 Require Import Gen Model ModelSpec ModelPrune.
+From C32 Require ProofsNeverTwice.
 Extraction "model.ml" drv_b2n drv_n2b drv_z_of_n drv_n_of_z drv_nat_of_n drv_n_of_nat
   mkhdr mkbd mkreq mkres init_state run process mkps mkenv mkun
   history_ok_b events_ok_b rejections_ok_b must_reject steps_wf_b accepted classify import_all
   run_t init_tstate tsteps_body_b mkkb mktenv mkts next_asc
-  C31.ModelSpec.plan_ok_b.
+  C31.ModelSpec.plan_ok_b
+  C32.ProofsNeverTwice.pinit C32.ProofsNeverTwice.p_step C32.ProofsNeverTwice.in_tree
+  C32.ProofsNeverTwice.pknows C32.ProofsNeverTwice.pever.
